@@ -65,6 +65,10 @@ def check_idx_kernel(run, m):
         k = id(node)
         if k not in per or (per[k][1] and not ok):
             per[k] = (node, ok, i)
+    # fail closed: an unchecked read the evaluator never reached is not proved
+    for x in walk(cl['ch'][0]):
+        if x.get('k') == 'MethodCall' and callee_is(x, 'Vec1View::uget', 'Vec1View::uvget') and id(x) not in per:
+            per[id(x)] = (x, False, None)
     for node, ok, i in per.values():
         run.ob('IDX.kernel', fn, S._clean(src(node)), ok, loc(node),
                'index %s %s [0, end]' % (S._clean(lia.show(i)) if i is not None else 'non-linear',
